@@ -302,6 +302,31 @@ def r_C05_C10(root):
         ob("C10", "C10.b", P, "FQN._find_referenced_obj", "search cursor %s: starts at the referencing object, climbs .parent only, search repeated after each climb" % cur, okb_)
         if not okb_:
             out.append(Finding("C10", "C10.b", P, "FQN._find_referenced_obj", "search order", "search does not start at the referencing object and continue outward through its ancestors (starts at the object: %s, climbs only .parent: %s, repeats after climbing: %s)" % (bool(starts_here), only_parent, bool(repeats))))
+    # the outward search is started at the referencing object itself: the provider hands its own first parameter to the search
+    fq_call = find(load(root, P), "FQN.__call__"); inst += 1
+    fqi = sem.info(fq_call); cobj = fq_call.args.args[1].arg
+    starts = [c for c in calls(fq_call, own=True) if callee_name(c) == fr.name and c.args]
+    if not starts: raise AnalysisError("FQN.__call__: start of the search not found")
+    for c in starts:
+        a0 = fqi.expand(c.args[0], at=c)
+        oks_ = isinstance(a0, ast.Name) and a0.id == cobj
+        ob("C10", "C10.b", P, "FQN.__call__", "search starts at the referencing object (%s)" % ast.unparse(a0)[:40], oks_)
+        if not oks_: out.append(Finding("C10", "C10.b", P, "FQN.__call__", " ".join(ast.unparse(c).split())[:100], "the search starts at %s instead of the referencing object: a chain that begins inside the referencing object itself is missed or a farther one wins" % ast.unparse(a0)[:50], witness="class K extends X.Y { class X { class Y {} } }"))
+    # FQNImportURI: the redirection through the models loaded by an import statement exists only with importAs
+    fqi_init = find(load(root, P), "FQNImportURI.__init__"); inst += 1
+    fi_i = sem.info(fqi_init)
+    uses = [n for n in ast.walk(fqi_init) if isinstance(n, ast.Name) and n.id == "follow_loaded_models_scope_redirection_logic"]
+    if not uses: raise AnalysisError("FQNImportURI.__init__: loaded-models redirection not found")
+    for u in uses:
+        # the statement of __init__ itself (a nested def or an assignment) that introduces the redirection
+        st_ = None
+        for a in [u] + list(ancestors(u)):
+            if a is fqi_init: break
+            if isinstance(a, ast.stmt) and enclosing_func(getattr(a, "_parent", None)) is fqi_init: st_ = a; break
+        if st_ is None: raise AnalysisError("FQNImportURI.__init__: statement that installs the redirection not found")
+        okr_ = any(a.replace(" ", "") == "importAs" and pol for a, pol in fi_i.atoms_at(st_)) or any(ast.unparse(g_).replace(" ", "") == "importAs" and pol for g_, pol in guards(st_))
+        ob("C10", "C10.g", P, "FQNImportURI.__init__", "loaded-models redirection only under importAs", okr_)
+        if not okr_: out.append(Finding("C10", "C10.g", P, "FQNImportURI.__init__", " ".join(ast.unparse(st_).split())[:90], "the scope redirection through the models loaded by an import statement is installed although importAs is off: a name that starts with the import's name walks into the imported models through a non-containment link", witness="FQNImportURI() (importAs=False), a named import object L, reference L.p.A"))
     ff = find(load(root, P), "FQN.__call__._find_obj_fqn"); inst += 1
     fiq = sem.info(ff)
     rets = [r for r in own_nodes(ff) if isinstance(r, ast.Return) and ast.unparse(r.value) == "p"]
